@@ -1395,7 +1395,7 @@ func c07Watchdog(r *rep.Reporter, stop <-chan struct{}) {
 
 func runC07(c *Ctx) {
 	r := c.R
-	r.SetRule("(1) short concurrent histories over loopback TCP: 2-16 clients x 1-6 operations (put/get/head/delete/copy incl. self-copy/list) on 1-3 keys per history, every written body unique, call/return stamped by one monotonic clock, a final read of every key at quiescence; every read must be exactly one uploaded body with matching ETag/length, and each key's sub-history must be linearizable against a register model (porcupine); (2) concurrent versioned uploads/deletes: ids distinct, GET ?versionId returns exactly that upload, nothing lost, and the version an unqualified read serves afterwards behaves as the newest one (one more upload followed by the deletion of exactly that version restores the same answer, repeatedly); permanent deletes of specific versions (each by one client) racing reads of the keys, reads by version id and listings: no dropped connection or 5xx, deleted versions gone, all others intact; bursts of eight simultaneous versioned writes to one key followed by the push/pop check; a versioned PUT parked at each of its hook points with another PUT or DELETE of the key completing inside the window, judged the same way; (3) concurrent part uploads, completes and aborts of one upload: held parts are acknowledged uploads, at most one complete wins, the object is exactly the listed parts; random concurrent histories of part uploads / completes (current, subset and stale lists) / aborts / ListParts / GET on one upload, a slow part upload whose body is still arriving while a complete or abort is answered, and part/complete parked at their hook points with the other operations inside the window, each history checked with porcupine against a sequential model of the upload (live?, body held per part number, bodies of the completed object); (4) a slow reader overlapping an acknowledged overwrite and a slow uploader with reads in between; (5) every ordered pair (A parked at a hook point, B run inside A's window) of operation kinds on one key; a copy parked after it examined its source and after it read it while the source is overwritten (the destination is one upload as a whole, headers included); (6) bucket life cycle: create/delete/head bucket racing put/get/delete/list on two keys of that bucket, random histories over TCP and object operations parked at hook points with bucket operations inside the window, each whole history checked against a sequential bucket model (existence + both values) with porcupine; with the auto-create-bucket option, eight clients uploading into a new bucket at the same moment must all be acknowledged; (7) eight clients sending well-formed requests of every routed kind (object, listing, versioning, multi-delete, multipart, form, by-version) at one bucket at once, judged by the race detector, the lock-wait watchdog and 'no dropped connection, no 5xx but NotImplemented', also on the memory backend behind a front end without versioning; on the file backends a slow upload of a key racing an upload of a key below / above it (at most one acknowledged, the acknowledged one readable and listed); (8) on the file backends, a read (GET, ranged GET, HEAD, listing, copy) held before its n-th file-system call of each class by a wrapper around the afero file system while the key is overwritten with an object of the same length (900 bytes and 16 MiB + 1): the answer is one upload as a whole; (9) the Go race detector over all of it; memory structures audited at quiescence; on all seven backend configurations; distinct = distinct observed interleavings (sequence of call/return events per history)")
+	r.SetRule("(1) short concurrent histories over loopback TCP: 2-16 clients x 1-6 operations (put/get/head/delete/copy incl. self-copy/list) on 1-3 keys per history, every written body unique, call/return stamped by one monotonic clock, a final read of every key at quiescence; every read must be exactly one uploaded body with matching ETag/length, and each key's sub-history must be linearizable against a register model (porcupine); (2) concurrent versioned uploads/deletes: ids distinct, GET ?versionId returns exactly that upload, nothing lost, and the version an unqualified read serves afterwards behaves as the newest one (one more upload followed by the deletion of exactly that version restores the same answer, repeatedly); permanent deletes of specific versions (each by one client) racing reads of the keys, reads by version id and listings: no dropped connection or 5xx, deleted versions gone, all others intact; bursts of eight simultaneous versioned writes to one key followed by the push/pop check; a versioned PUT parked at each of its hook points with another PUT or DELETE of the key completing inside the window, judged the same way; (3) concurrent part uploads, completes and aborts of one upload: held parts are acknowledged uploads, at most one complete wins, the object is exactly the listed parts; random concurrent histories of part uploads / completes (current, subset and stale lists) / aborts / ListParts / GET on one upload, a slow part upload whose body is still arriving while a complete or abort is answered, and part/complete parked at their hook points with the other operations inside the window, each history checked with porcupine against a sequential model of the upload (live?, body held per part number, bodies of the completed object); eight clients initiating uploads for two keys at once and an initiation held at its look at the clock while a second one is sent: distinct upload ids, every upload listed exactly once, walks with max-uploads 1-3 end; (4) a slow reader overlapping an acknowledged overwrite and a slow uploader with reads in between; (5) every ordered pair (A parked at a hook point, B run inside A's window) of operation kinds on one key; a copy parked after it examined its source and after it read it while the source is overwritten (the destination is one upload as a whole, headers included); (6) bucket life cycle: create/delete/head bucket racing put/get/delete/list on two keys of that bucket, random histories over TCP and object operations parked at hook points with bucket operations inside the window, each whole history checked against a sequential bucket model (existence + both values) with porcupine; with the auto-create-bucket option, eight clients uploading into a new bucket at the same moment must all be acknowledged; (7) eight clients sending well-formed requests of every routed kind (object, listing, versioning, multi-delete, multipart, form, by-version) at one bucket at once, judged by the race detector, the lock-wait watchdog and 'no dropped connection, no 5xx but NotImplemented', also on the memory backend behind a front end without versioning; on the file backends a slow upload of a key racing an upload of a key below / above it (at most one acknowledged, the acknowledged one readable and listed); (8) on the file backends, a read (GET, ranged GET, HEAD, listing, copy) held before its n-th file-system call of each class by a wrapper around the afero file system while the key is overwritten with an object of the same length (900 bytes and 16 MiB + 1): the answer is one upload as a whole; (9) the Go race detector over all of it; memory structures audited at quiescence; on all seven backend configurations; distinct = distinct observed interleavings (sequence of call/return events per history)")
 	nhist := r.Pick(140, 3000)
 	rounds := r.Pick(8, 150)
 	nlife := r.Pick(100, 2500)
@@ -1456,6 +1456,7 @@ func runC07(c *Ctx) {
 		case "multipart":
 			for i := j.lo; i < j.hi; i++ {
 				runMultipartConcurrency(e, i)
+				runInitiateBursts(e, i)
 			}
 		case "slow":
 			for i := j.lo; i < j.hi; i++ {
@@ -1495,6 +1496,20 @@ func runC07(c *Ctx) {
 		c07Quiescent(r, s, j.kind)
 	})
 	runFsPause(r)
+	// initiations held at their look at the clock (own servers)
+	{
+		type hi struct {
+			kind string
+			n    int
+		}
+		var his []hi
+		for _, k := range kinds {
+			for n := 0; n < r.Pick(4, 24); n++ {
+				his = append(his, hi{k, n})
+			}
+		}
+		rep.Parallel(len(his), 0, func(w, i int) { runHeldInitiation(r, his[i].kind, his[i].n) })
+	}
 	// gated pairs: the hook handler is process-wide, so these run one at a time
 	if c07InstallHook(gateHandler) {
 		aOps := map[string][]string{
